@@ -168,6 +168,76 @@ def mc_api(ctx, dev="{}", negative=False, name=None):
                   name=name or "MC_Api", workers=C.NCPU, extra_cfg=["VIEW View"], negative=negative, timeout=1200)
 
 
+def c12(ctx):
+    import json, math, os, re
+    ctx.rule = ("workloads: all unordered pairs of 15 expressions (sort_by on the document / on a literal inside the shared compiled "
+                "expression / on a member, projections, reverse, merge, sort, max_by, map, flatten, slices, keys, wildcard, to_array) x 4 shared "
+                "documents, through a shared compiled expression and through the one-shot Search; schedules: TLC (Sched.tla) enumerates all "
+                "interleavings of the two calls' hook points (Execute entries and parser steps, counted on the real code) when there are at "
+                "most 1500, otherwise samples them with -simulate; each replayed on real goroutines gated at the hooks, with the shared "
+                "document compared after every step; plus a free-running run of the same workloads under the Go race detector; non-trivial: "
+                "the schedule has >= 2 steps and at least one call reads an array or object; a case = one (workload, schedule)")
+    quick = ctx.tier == Q
+    for doc in ["DocVal"] + ([] if quick else ["DocVal4"]):
+        C.model_check(ctx, "MC_HeapRace", {"InPlace": False, "Doc0": "<- " + doc}, invariants=["DocIntact", "ReaderSolo", "SortedOK"],
+                      properties=["ReadOnly"], spec="Spec", name="MC_HeapRace_spec_" + doc, workers=4)
+    C.model_check(ctx, "MC_HeapRace", {"InPlace": True, "Doc0": "<- DocVal"}, invariants=["ReaderSolo", "SortedOK"], spec="Spec",
+                  name="MC_HeapRace_code_as_it_was", workers=4, negative=True)
+    wl = os.path.join(ctx.scratch, "workloads.ndjson")
+    C.run_tlc(ctx, "Gen_Sched", {"Dev": "{}", "Tier": ctx.tier, "OutFile": wl}, ["INIT Init", "NEXT Next"], name="Gen_Sched", timeout=600)
+    recs = [json.loads(l) for l in open(wl)]
+    allw = os.path.join(ctx.scratch, "workloads2.ndjson")
+    with open(allw, "w") as f:
+        for r in recs:
+            f.write(json.dumps(r) + "\n")
+            if r["p"] % 3 == 0 or not quick:
+                f.write(json.dumps(dict(r, oneshot=True)) + "\n")
+    if not ctx.hooks:
+        ctx.notes.append("hook file did not compile: C12 degraded to the race monitor plus result comparison of free-running goroutines")
+    else:
+        counted = os.path.join(ctx.scratch, "counted.ndjson")
+        s = C.run_tool(ctx, "sched", [allw], {"sched-solo", "sched-compile"}, extra=["-phase", "count", "-counted", counted])
+        ws = [json.loads(l) for l in open(counted)]
+        pairs = sorted({(w["n"][0], w["n"][1]) for w in ws})
+        limit = 1500 if quick else 20000
+        small = [p for p in pairs if math.comb(p[0] + p[1], p[0]) <= limit]
+        big = [p for p in pairs if p not in small]
+        scheds = {}
+
+        def collect(out):
+            for line in out.splitlines():
+                if line.startswith('<<"SCHED", '):
+                    m = re.match(r'<<"SCHED", "(.*)">>$', line)
+                    v = json.loads(m.group(1).replace('\\"', '"'))
+                    scheds.setdefault(tuple(v["n"]), set()).add(tuple(v["s"]))
+        if small:
+            res = C.run_tlc(ctx, "Sched", {"Pairs": "<- PairsVal"},
+                            ["SPECIFICATION Spec", "INVARIANT Emit", "INVARIANT WellFormed", "CHECK_DEADLOCK FALSE"], name="Sched_exhaustive",
+                            workers=8, timeout=1800, xmx="8g", defs="PairsVal == {" + ", ".join("<<%d, %d>>" % p for p in small) + "}")
+            collect(res["out"])
+        for p in big:
+            res = C.run_tlc(ctx, "Sched", {"Pairs": "<- PairsVal"}, ["SPECIFICATION Spec", "INVARIANT Emit", "CHECK_DEADLOCK FALSE"],
+                            name="Sched_sim_%d_%d" % p, workers=1, timeout=600, simulate="num=%d" % (150 if quick else 1500), depth=p[0] + p[1] + 1,
+                            defs="PairsVal == {<<%d, %d>>}" % p)
+            collect(res["out"])
+        runf = os.path.join(ctx.scratch, "torun.ndjson")
+        nsch = 0
+        with open(runf, "w") as f:
+            for w in ws:
+                ss = sorted(scheds.get(tuple(w["n"]), []))
+                if quick and len(ss) > 400:
+                    import random
+                    ss = random.Random(ctx.seed + w["p"] * 31 + w["q"]).sample(ss, 400)
+                w["scheds"] = [list(x) for x in ss]
+                nsch += len(ss)
+                f.write(json.dumps(w) + "\n")
+        ctx.log("schedules: %d hook-count pairs (%d enumerated exhaustively, %d sampled), %d schedules to replay" % (len(pairs), len(small), len(big), nsch))
+        ctx.bounds["schedules"] = {"pairs": len(pairs), "exhaustive_pairs": len(small), "sampled_pairs": len(big), "replayed": nsch}
+        C.run_tool(ctx, "sched", [runf], {"sched-outcome", "sched-docmod", "sched-compile"}, extra=["-phase", "run"], canary_every=499)
+    C.run_race(ctx, [allw], iters=10 if quick else 60, goroutines=8 if quick else 16)
+    ctx.exhaustive = False
+
+
 def c13(ctx):
     ctx.rule = ("histories: every sequence of 1..4 (quick; thorough 1..5) Search calls of one compiled expression over 5 documents, for 7 "
                 "expressions (sort_by on a literal and on the document, failing searches, object wildcard), each call compared with the "
@@ -270,5 +340,5 @@ def c16(ctx):
 
 
 PIPELINES = {
-    "C01": c01, "C02": c02, "C03": c03, "C04": c04, "C06": c06, "C13": c13, "C14": c14, "C17": c17, "C07": c07, "C08": c08, "C09": c09, "C10": c10, "C11": c11, "C16": c16,
+    "C01": c01, "C02": c02, "C03": c03, "C04": c04, "C06": c06, "C12": c12, "C13": c13, "C14": c14, "C17": c17, "C07": c07, "C08": c08, "C09": c09, "C10": c10, "C11": c11, "C16": c16,
 }
